@@ -1,6 +1,6 @@
 (* C06 — the tie to the source: Subject.countTokenWildcards (v2/types.go, translated on this run into
    Gen/SrcSubject.v), which the mapping and import validation rules count with, is the model's [count_wild_tokens]. *)
-From JWT Require Import Base.GoSem Gen.SrcSubject Gen.SrcValidate Model.Validate Proofs.SrcSubject Proofs.SrcValidate.
+From JWT Require Import Base.GoSem Gen.SrcSubject Gen.SrcValidate Model.Validate Proofs.SrcSubject Proofs.SrcValidate Gen.SrcValidateClaims Proofs.SrcValidateClaims.
 Open Scope string_scope.
 
 Theorem C06_source_count_wild_tokens : forall s : string,
@@ -26,3 +26,15 @@ Theorem C06_source_export_validate : forall url_of (e : export) (vr : list go_is
   = (vr ++ map goi (v_export url_of (Some e)))%list.
 Proof. exact src_export_validate. Qed.
 Print Assumptions C06_source_export_validate.
+
+(* permissions and clock-time ranges (Gen/SrcValidateClaims.v) *)
+Theorem C06_source_permissions_validate : forall (p : permissions) (resp_nil : bool) (vr : list go_issue),
+  SrcValidateClaims.V2.Permissions_Validate (p_allow (perm_pub p)) (p_deny (perm_pub p)) resp_nil (p_allow (perm_sub p)) (p_deny (perm_sub p)) vr
+  = (vr ++ map SrcValidateClaims.goi (v_permissions p))%list.
+Proof. exact vc_permissions. Qed.
+Print Assumptions C06_source_permissions_validate.
+Theorem C06_source_time_range_validate : forall hhmmss_ok (t : time_range) (vr : list go_issue),
+  SrcValidateClaims.V2.TimeRange_Validate (parse_err hhmmss_ok) (tr_end t) (tr_start t) vr
+  = (vr ++ map SrcValidateClaims.goi (v_time_range hhmmss_ok t))%list.
+Proof. exact vc_time_range. Qed.
+Print Assumptions C06_source_time_range_validate.
